@@ -28,7 +28,7 @@ RULE = (
     "is sliced or >=2 indices removed"
 )
 ASSUMPTIONS = ["dense reference evaluator (cross-checked with numpy in C01)"]
-REQUIRED_MONITORS = ["history_cases", "key_bijection", "slice_value", "slice_arrays", "gather", "gather_lazy", "gather_stripped", "chunks", "chunk_tiles"]
+REQUIRED_MONITORS = ["contract_with_options", "history_cases", "key_bijection", "slice_value", "slice_arrays", "gather", "gather_lazy", "gather_stripped", "chunks", "chunk_tiles"]
 SHARD_TIMEOUT = {"quick": 400, "thorough": 3600}
 
 
@@ -184,6 +184,30 @@ def execute(rep, case):
             r = cmp(tree.contract(arrays), "contract")
             if r:
                 return r
+            # the same through value-neutral execution options (they reach gather_slices too)
+            ro = rng_for(cs, "copts")
+            kwc = {}
+            if ro.random() < 0.5:
+                kwc["progbar"] = True
+            if ro.random() < 0.4:
+                kwc["prefer_einsum"] = True
+            if ro.random() < 0.5:
+                kwc["implementation"] = ro.choice(["cotengra", "autoray"])
+            if ro.random() < 0.3:
+                kwc["order"] = "dfs"
+            if kwc:
+                import contextlib
+                import io
+
+                with contextlib.redirect_stderr(io.StringIO()):
+                    got_o = tree.contract(arrays, **kwc)
+                    chunks_o = list(tree.gen_output_chunks(arrays, with_key=True, **kwc))
+                rep.mon("contract_with_options")
+                r = cmp(got_o, f"contract({kwc})")
+                if r:
+                    return r
+                if len(chunks_o) != tree.nchunks:
+                    return ("chunks", f"gen_output_chunks({kwc}) yielded {len(chunks_o)} chunks, nchunks = {tree.nchunks}")
             if not exact:
                 # (mantissa, exponent) tuples with different exponents per slice
                 rr = rng_for(cs, "exps")
